@@ -20,9 +20,11 @@ Fixpoint once_polls (n : nat) (b : body) : list val :=
       end
   end.
 
-Definition F_ONCE_HINT0 := bs "hint0"%string.
-Definition F_ONCE_EOS0 := bs "eos0"%string.
-Definition F_ONCE_POLLS := bs "polls"%string.
+Definition F_ONCE_HINT0 := bs "once.hint0"%string.
+Definition F_ONCE_BYTES := bs "once.bytes"%string.
+Definition F_ONCE_EOS0 := bs "once.flag"%string.      (* drift only *)
+Definition F_ONCE_POLLS := bs "once.framing"%string.   (* drift only *)
+Definition cmp_drift := cmp_field.
 
 Fixpoint data_total (p : list (ores * option N * bool)) : bytes :=
   match p with [] => [] | (r, _, _) :: t => data_of r ++ data_total t end.
@@ -47,9 +49,14 @@ Definition run_once (v : val) : val :=
       | Some p, Some e0b =>
           let want := if kind =? 0 then [] else d in
           VL (tag
+              (* compared with the model: what the property fixes -- the exact initial hint and the bytes
+                 delivered; the flag and the framing are constrained by the clauses below only (a flag that
+                 stays false although nothing more comes, or an empty frame, would not violate C12) *)
               :: cmp_field F_ONCE_HINT0 (VN (body_hint b)) h0
-              ++ cmp_field F_ONCE_EOS0 (of_bool (body_eos b)) e0
-              ++ cmp_field F_ONCE_POLLS (VL (once_polls (List.length polls) b)) (VL polls)
+              ++ cmp_field F_ONCE_BYTES (VB (flat_map (fun v => match v with VL (VB x :: _) => x | _ => [] end) (once_polls (List.length polls) b)))
+                                        (VB (data_total p))
+              ++ cmp_drift F_ONCE_EOS0 (of_bool (body_eos b)) e0
+              ++ cmp_drift F_ONCE_POLLS (VL (once_polls (List.length polls) b)) (VL polls)
               (* C12: exact hint = length, at every step; the flag is truthful *)
               ++ check (match dec_hint h0 with Some n => n =? lenN want | None => false end) "C12" "body-from-gives-exact-hint-equal-to-its-length"
               ++ check (once_steps_ok p) "C12" "body-from-hint-and-flag-truthful-at-every-step"
